@@ -528,6 +528,8 @@ def _vk_from_string(cls, string, curve=None, hashfunc=None, validate_point=True,
     b = _as_bytes(string)
     _log("vk_from_string", b)
     if isinstance(b, bytes):
+        if len(b) not in (33, 64, 65):
+            _mraise(MalformedPointError("Length of string does not match lengths of any of the enabled encodings"))
         raise Unsupported("concrete SEC bytes in the group model")
     d0 = _sec_provenance(b)
     if d0 is not None:
